@@ -599,7 +599,21 @@ def rule_r1(ctx, rid="C02.R1"):
             ctx.r.violation(rid, key_of(f, None, "no-store-back::" + carry), "%s: on the unfinished branch the joined bytes are not stored back (the partial token is lost)" % carry, f.loc(j.ast))
         # (c) finished: reset, or phase not re-entered
         if resets:
-            ctx.r.ok(rid, "%s: reset when the token is complete" % carry, f.loc(resets[0].ast))
+            # ... on EVERY way from the join to the next round / the way out that does not keep the joined bytes: a reset
+            # under a condition on the token (`if line:`) leaves the carry in front of the next token on the other arm
+            comp0 = [n for n in g.nodes if n.kind == "stmt" and isinstance(n.ast, ast.Assign) and any(dotted(t) in ("self.completed", "self.error") for t in n.ast.targets)]
+            heads = [x for x in g.nodes if x.kind == "join" and x.label == "loop_head" and g.dominates(x, j)]
+            leak = None
+            for tgt in heads + [g.exit]:
+                pth = g.path(j, tgt, avoid=resets + back + comp0, follow_exc=False)
+                if pth is not None:
+                    leak = pth
+                    break
+            if leak is None:
+                ctx.r.ok(rid, "%s: reset when the token is complete, on every path" % carry, f.loc(resets[0].ast))
+            else:
+                where = [n for n in leak if n.kind == "branch"]
+                ctx.r.violation(rid, key_of(f, None, "reset-skipped::" + carry), "%s is reset only on some of the paths that complete a token (a path through %s reaches the next round with the carry still set): the stale bytes are prefixed to the next token when the token was cut between reads" % (carry, norm(where[-1].ast) if where else "the join"), f.loc(resets[0].ast))
         else:
             comp = [n for n in g.nodes if n.kind == "stmt" and isinstance(n.ast, ast.Assign) and any(dotted(t) in ("self.completed",) for t in n.ast.targets) and g.dominates(j, n)]
             hf = [n for n in g.nodes if n.kind == "stmt" and isinstance(n.ast, ast.Assign) and any(dotted(t) in ("self.headers_finished",) for t in n.ast.targets) and g.dominates(j, n)]
